@@ -116,3 +116,13 @@ CLAIMS['C12'] = dict(
          'http::file::~file closes and close() removes an unsaved temporary file on every path of the temporary branch; in the boundary matcher a failed partial match is re-emitted from the boundary text (never from the input buffer) '
          'with the matched length read before it is reset, a byte is written only when it was not counted into the match, and failed writes are reported.',
     note='Not decided: reconstruction exactness of the matcher for all content/boundary/cut combinations, Content-Disposition parsing, file_buffer spill-over.')
+
+CLAIMS['C10'] = dict(
+    category='other',
+    technique='static analysis: CFG domination / pairing, resolved call-argument inspection (default arguments included), sender/receiver field-set agreement',
+    text='Coherence over all client interleavings is a history property and is not claimed. Decided necessary conditions: every successful cache_over_ip::fetch consulted the server; an L1 hit is revalidated with transfer_if_not_updated=true, '
+         'the same key and the generation the L1 copy was stored under; only up_to_date returns the L1 value, not_found purges L1 and is a miss, every other outcome refreshes L1; every L1 copy is stored with an explicit generation argument that is the '
+         'one received from the server (a defaulted gen is reported); store/rise/clear always reach the servers; rise/clear are broadcast over all connections, store/fetch use hash(key) which depends only on key and the server count; '
+         'the server answers uptodate only when asked, on a hit and for an equal generation, no_data only on a miss, and replies with the entry\'s generation; mem_cache stamps each store with the supplied or a fresh generation and increments the counter nowhere else; '
+         'per message the receiver reads only header fields the sender writes, sizes are payload sizes, a data reply always replaces value, deadline and generation; the server slices its input only past the length equation / the 32-byte sid checks.',
+    note='Observed and not claimed (DESIGN.md): trigger set returned after an L1 refresh is the union of old and new triggers; trigger names containing NUL cannot cross the NUL-separated wire format. Not decided: interleaving coherence, strlen walks over the reply on the client (trusted server).')
